@@ -44,6 +44,9 @@ def cases(tier):
         us = us[:4] + [extra] + us[4:]
         out.append(dict(name="np_generic_r4_%s_before_n2" % kind_, pi="nonparametric", alphas=[0.5], estimands=["turnout"], units=us,
                         cut_calibration=True, weight=15))
+    # regularisation requested although there is nothing to regularise: the common factor is still the weighted median
+    out.append(dict(name="np_generic_r4_n1_lambda5", pi="nonparametric", alphas=[0.5], estimands=["turnout"],
+                    units=P.standard_units(4, 1), cut_calibration=True, model_parameters={"lambda_": 5.0}, weight=13))
     out.append(dict(name="ga_generic_r7_n1", pi="gaussian", alphas=[0.7], estimands=["turnout"],
                     units=P.standard_units(7, 1), cut_calibration=True, weight=20))
     return out
@@ -76,6 +79,12 @@ def run(ctx, case):
         # the real relative changes and weights, recomputed from the scenario (independent of what the code passes on)
         true_y = [(u.vals["results_%s" % est] - base[u.fips]) / base[u.fips] for u in reps]
         true_w = [base[u.fips] for u in reps]
+        # the median contract of the stub holds for an unpenalised intercept only: whatever lambda_ is, the intercept-only fits must
+        # not ask for the intercept to be regularised
+        for fc in r.qr.calls[ei * fits_per_est:(ei + 1) * fits_per_est]:
+            if np.asarray(fc["x"], dtype=object).shape[1] == 1:
+                obl.append(("%s: intercept-only fit leaves the intercept unpenalised (lambda_=%s)" % (est, fc.get("lambda_")),
+                            not fc.get("regularize_intercept", False)))
         # (b) m is the baseline-weighted median of the true relative changes
         m = r.qr_coefs[ei * fits_per_est][0]
         W = P.csum(true_w)
